@@ -22,7 +22,7 @@ func cmpRules() []*Rule {
 		{ID: "CMP-search", Props: []string{"C11", "C03", "C13"}, Min: 12,
 			Doc: "Search and Equals loop bodies over (record shorter, sign of compare, Desc): the required outcome table; key first, record second; collation = the column's own or the default, per column",
 			Run: runCmpSearch},
-		{ID: "COLL", Props: []string{"C11", "C03", "C13"}, Min: 3,
+		{ID: "COLL", Props: []string{"C11", "C03", "C13", "C02"}, Min: 3,
 			Doc: "the registered collations: binary = strings.Compare, rtrim strips only ' ', nocase folds only 'A'..'Z'",
 			Run: runColl},
 	}
